@@ -25,11 +25,16 @@ type Clause struct {
 	Line  int
 }
 
+type LoopGhost struct {
+	Name, Init, Step string
+}
+
 type LoopSpec struct {
 	Invariants []Clause
 	Decreases  string
 	Bound      int
 	Cut        bool
+	Ghosts     []LoopGhost
 }
 
 type GhostUpd struct {
@@ -244,6 +249,16 @@ func (eng *Engine) loadContractFile(root, path string) error {
 			eng.axioms = append(eng.axioms, &Axiom{Name: c.Label, Expr: c.Expr, PkgPath: pkgPath, Lemma: kw == "lemma"})
 			cur, curLoop = nil, nil
 		case "ghost":
+			if curLoop != nil {
+				// loop ghost: name = init step expr
+				re := regexp.MustCompile(`^(\w+)\s*=\s*(.*?)\s+step\s+(.*)$`)
+				m := re.FindStringSubmatch(rest)
+				if m == nil {
+					return fmt.Errorf("%s:%d: loop ghost syntax: ghost k = init step expr", path, ln.n)
+				}
+				curLoop.Ghosts = append(curLoop.Ghosts, LoopGhost{m[1], m[2], m[3]})
+				continue
+			}
 			// ghost name Type
 			f := strings.SplitN(rest, " ", 2)
 			if len(f) != 2 {
@@ -354,6 +369,7 @@ type Env struct {
 	fn    *ssa.Function
 	loop  *loopInfo
 	depth int
+	bound []string // SMT names of quantified variables in scope
 }
 
 var untypedNil = types.Typ[types.UntypedNil]
@@ -500,6 +516,10 @@ func (e *Env) resolveType(x ast.Expr) types.Type {
 }
 
 func (eng *Engine) resolveTypeString(s string, pkg *types.Package) types.Type {
+	s = strings.TrimSpace(s)
+	if strings.HasPrefix(s, "smt:") {
+		return pseudoType(strings.TrimPrefix(s, "smt:"))
+	}
 	switch s {
 	case "int":
 		return tInt
@@ -678,6 +698,14 @@ func (e *Env) pkgObject(obj types.Object) TV {
 
 func (e *Env) localVar(name string) (TV, bool) {
 	u := e.u
+	// ghost counters of the current loop
+	if e.loop != nil && e.loop.spec != nil {
+		for _, g := range e.loop.spec.Ghosts {
+			if g.Name == name {
+				return TV{T: u.heap(e.st, loopGhostHeap(e.fn, e.loop, name), SInt), Ty: tInt}, true
+			}
+		}
+	}
 	// loop-carried variable of the current loop
 	if e.loop != nil {
 		for _, ins := range e.loop.header.Instrs {
@@ -826,6 +854,13 @@ func (e *Env) index(x *ast.IndexExpr) TV {
 	u := e.u
 	base := e.eval(x.X)
 	idx := e.eval(x.Index)
+	if ps, ok := pseudoSort(base.Ty); ok {
+		_, vs, ok := arraySorts(ps)
+		if !ok {
+			specErr("index on non-array sort %s", ps)
+		}
+		return TV{T: sx("select", base.T, idx.T), Ty: pseudoType(vs)}
+	}
 	switch t := types.Unalias(base.Ty).Underlying().(type) {
 	case *types.Slice:
 		if isBytesType(base.Ty) {
@@ -919,6 +954,7 @@ func (e *Env) quant(q string, args []ast.Expr) TV {
 	u.s.nfresh++
 	bv := fmt.Sprintf("q_%s!%d", mangle(name), u.s.nfresh)
 	sub := e.sub(map[string]TV{name: {T: bv, Ty: ty}})
+	sub.bound = append(append([]string{}, e.bound...), bv)
 	b := sub.eval(body)
 	// typing facts of the bound variable are assumed inside
 	rf := u.ty.rangeFact(bv, ty, "")
@@ -1029,6 +1065,9 @@ func (e *Env) callExpr(x *ast.CallExpr) TV {
 			it = e.resolveType(x.Args[1])
 		}
 		return TV{T: u.ty.mkIfc(v.Ty, v.T), Ty: it}
+	case "upd":
+		m, k, v := e.eval(x.Args[0]), e.eval(x.Args[1]), e.eval(x.Args[2])
+		return TV{T: sx("store", m.T, k.T, v.T), Ty: m.Ty}
 	case "alloc":
 		return TV{T: u.alloc(e.st), Ty: tInt}
 	case "fresh":
@@ -1044,6 +1083,15 @@ func (e *Env) callExpr(x *ast.CallExpr) TV {
 			return TV{T: sx("b2s", v.T), Ty: tString}
 		}
 		return TV{T: v.T, Ty: tString}
+	case "strings.HasPrefix", "strings.HasSuffix", "strings.Contains":
+		a, b := e.eval(x.Args[0]), e.eval(x.Args[1])
+		fn := map[string]string{"strings.HasPrefix": "str_hasprefix", "strings.HasSuffix": "str_hassuffix", "strings.Contains": "str_contains"}[name]
+		u.s.declFun(fn, []Sort{SStr, SStr}, SBool)
+		return TV{T: sx(fn, a.T, b.T), Ty: tBool}
+	case "strings.TrimSpace":
+		a := e.eval(x.Args[0])
+		u.s.declFun("str_trimspace", []Sort{SStr}, SStr)
+		return TV{T: sx("str_trimspace", a.T), Ty: tString}
 	case "smt":
 		// smt("(raw %1 %2)", ResultType, args...)
 		f, _ := strconv.Unquote(x.Args[0].(*ast.BasicLit).Value)
@@ -1110,9 +1158,29 @@ func (e *Env) specCall(sf *SpecFunc, args []TV) TV {
 		a.Ty = pt
 		vars[p] = a
 	}
-	sub := &Env{u: u, vars: vars, st: e.st, old: e.old, pkg: pkg, depth: e.depth + 1}
+	sub := &Env{u: u, vars: vars, st: e.st, old: e.old, pkg: pkg, depth: e.depth + 1, bound: e.bound}
 	r := sub.eval(parseSpecExpr(sf.Body))
 	r.Ty = rt
+	// name large closed expansions once (keeps queries small, lets the solver share them)
+	if len(r.T) > 200 && u.s.specMode == 0 {
+		closed := true
+		for _, bv := range e.bound {
+			if strings.Contains(r.T, bv) {
+				closed = false
+				break
+			}
+		}
+		if closed {
+			if c, ok := u.s.defMemo[r.T]; ok {
+				r.T = c
+			} else {
+				c := u.s.fresh("def_"+sf.Name, u.ty.sortOf(rt))
+				u.s.assumeGlobal(eq(c, r.T))
+				u.s.defMemo[r.T] = c
+				r.T = c
+			}
+		}
+	}
 	return r
 }
 
@@ -1202,15 +1270,18 @@ func (e *Env) pureCall(f *ssa.Function, args []TV) TV {
 			in.regs[p] = a.T
 		}
 	}
-	savedSafety := u.eng.safety
-	u.eng.safety = false
+	u.s.specMode++
 	u.stack = append(u.stack, f)
 	out, res := u.execBody(f, in, false)
 	u.stack = u.stack[:len(u.stack)-1]
-	u.eng.safety = savedSafety
+	u.s.specMode--
 	_ = out
 	if len(res) != 1 {
 		specErr("pure call %s must have exactly one result", f.Name())
 	}
 	return TV{T: res[0], Ty: f.Signature.Results().At(0).Type()}
+}
+
+func loopGhostHeap(fn *ssa.Function, l *loopInfo, name string) string {
+	return fmt.Sprintf("lg$%s$%d$%s", mangle(fn.Name()), l.ordinal, name)
 }
